@@ -487,3 +487,432 @@ Proof. intros. split; [apply connect_ring_short; assumption|apply connect_shift_
 Lemma cache_transparent_nil {R I O : Type} (cutoff_of : R -> Z) (info : Z -> I) (detect : R -> I -> O) rules :
   eval_rules cutoff_of info detect [] rules = map (fun r => detect r (info (cutoff_of r))) rules.
 Proof. apply eval_rules_transparent. apply cache_ok_nil. Qed.
+
+(* ================= get_ruleset: history independence ================= *)
+
+Lemma scale_unit : forall d, scale d (1, 1) = d.
+Proof. intros d. unfold scale. cbn [fst snd]. rewrite Z.mul_1_r. apply Z.quot_1_r. Qed.
+
+Lemma scale_rule_unit : forall r, scale_rule unit_mults r = r.
+Proof. intros [n c d b]. unfold scale_rule, unit_mults. cbn. rewrite !scale_unit. reflexivity. Qed.
+
+Lemma map_scale_rule_unit : forall l, map (scale_rule unit_mults) l = l.
+Proof. induction l as [|a l IH]; cbn; [reflexivity|]. rewrite scale_rule_unit, IH. reflexivity. Qed.
+
+Lemma scale_rule_name : forall m r, r_name (scale_rule m r) = r_name r.
+Proof. reflexivity. Qed.
+
+Lemma mem_In : forall x l, mem x l = true <-> In x l.
+Proof.
+  induction l as [|y l IH]; cbn; [split; [discriminate|tauto]|].
+  rewrite Bool.orb_true_iff, IH, Z.eqb_eq. split; intros [H|H]; auto.
+Qed.
+
+Lemma nodupb_NoDup : forall l, NoDup l -> nodupb l = true.
+Proof.
+  induction 1 as [|x l Hn Hd IH]; cbn; [reflexivity|].
+  rewrite IH, Bool.andb_true_r. destruct (mem x l) eqn:E; [|reflexivity].
+  apply mem_In in E. contradiction.
+Qed.
+
+(* ---- the object store *)
+Lemma h_get_set : forall h i r j, h_get (h_set h i r) j = if Nat.eqb j i then r else h_get h j.
+Proof. reflexivity. Qed.
+
+Lemma deref_ext : forall h h' refs, (forall i, In i refs -> h_get h' i = h_get h i) -> deref h' refs = deref h refs.
+Proof. intros h h' refs H. unfold deref. apply map_ext_in. exact H. Qed.
+
+(* parse_rules allocates consecutive new objects and touches no existing one *)
+Lemma parse_rules_ok : forall m base seen h,
+  NoDup (map r_name base) -> (forall x, In x (map r_name base) -> ~ In x seen) ->
+  exists h2, parse_rules m base seen h = Ok (h2, seq (h_next h) (length base)) /\
+             h_next h2 = (h_next h + length base)%nat /\
+             (forall j, (j < h_next h)%nat -> h_get h2 j = h_get h j) /\
+             deref h2 (seq (h_next h) (length base)) = map (scale_rule m) base.
+Proof.
+  induction base as [|b rest IH]; intros seen h Hnd Hseen.
+  - exists h. cbn. repeat split; auto.
+  - cbn [parse_rules]. destruct (mem (r_name b) seen) eqn:Em.
+    { apply mem_In in Em. exfalso. apply (Hseen (r_name b)); [left; reflexivity|exact Em]. }
+    cbn [map] in Hnd. inversion Hnd as [|x l Hnotin Hnd']; subst.
+    unfold h_new.
+    set (h1 := mkHeap (S (h_next h)) (fun j => if Nat.eqb j (h_next h) then scale_rule m b else h_get h j)).
+    destruct (IH (r_name b :: seen) h1 Hnd') as [h2 [Hp [Hn [Hfr Hd]]]].
+    { intros x Hx [He|Hs]; [subst x; contradiction|]. apply (Hseen x); [right; exact Hx|exact Hs]. }
+    exists h2. rewrite Hp. cbn [length seq]. subst h1. cbn [h_next] in *. repeat split.
+    + lia.
+    + intros j Hj. rewrite Hfr by lia. cbn [h_get]. destruct (Nat.eqb j (h_next h)) eqn:E; [|reflexivity].
+      apply Nat.eqb_eq in E. lia.
+    + unfold deref in *. cbn [map]. rewrite Hd. f_equal. rewrite Hfr by lia. cbn [h_get].
+      rewrite Nat.eqb_refl. reflexivity.
+Qed.
+
+(* the in-place update of post_init: every listed object is scaled exactly once, no other changes *)
+Lemma scale_fold : forall m refs h, NoDup refs ->
+  let h' := fold_left (fun h' i => h_set h' i (scale_rule m (h_get h' i))) refs h in
+  h_next h' = h_next h /\
+  (forall j, ~ In j refs -> h_get h' j = h_get h j) /\
+  (forall i, In i refs -> h_get h' i = scale_rule m (h_get h i)).
+Proof.
+  induction refs as [|i rest IH]; intros h Hnd; cbn [fold_left].
+  - repeat split; auto. intros i [].
+  - inversion Hnd as [|x l Hnotin Hnd']; subst.
+    destruct (IH (h_set h i (scale_rule m (h_get h i))) Hnd') as [Hn [Hout Hin]].
+    cbv zeta. repeat split.
+    + rewrite Hn. reflexivity.
+    + intros j Hj. rewrite Hout by (intro; apply Hj; right; assumption).
+      rewrite h_get_set. destruct (Nat.eqb j i) eqn:E; [|reflexivity].
+      apply Nat.eqb_eq in E. subst. exfalso. apply Hj. left. reflexivity.
+    + intros j [He|Hj].
+      * subst j. rewrite Hout by exact Hnotin. rewrite h_get_set, Nat.eqb_refl. reflexivity.
+      * rewrite Hin by exact Hj. rewrite h_get_set. destruct (Nat.eqb j i) eqn:E; [|reflexivity].
+        apply Nat.eqb_eq in E. subst. contradiction.
+Qed.
+
+Lemma post_init_ok : forall m refs h, NoDup refs -> NoDup (map r_name (deref h refs)) ->
+  exists h', post_init m refs h = Ok h' /\ h_next h' = h_next h /\
+             (forall j, ~ In j refs -> h_get h' j = h_get h j) /\
+             deref h' refs = map (scale_rule m) (deref h refs).
+Proof.
+  intros m refs h Hnd Hnames. unfold post_init. rewrite (nodupb_NoDup _ Hnames).
+  destruct (scale_fold m refs h Hnd) as [Hn [Hout Hin]].
+  eexists. split; [reflexivity|]. split; [exact Hn|]. split; [exact Hout|].
+  unfold deref. rewrite map_map. apply map_ext_in. exact Hin.
+Qed.
+
+Lemma deref_filter : forall h (p : rule -> bool) refs,
+  deref h (filter (fun i => p (h_get h i)) refs) = filter p (deref h refs).
+Proof.
+  intros h p. unfold deref. induction refs as [|i rest IH]; cbn [filter map]; [reflexivity|].
+  destruct (p (h_get h i)); cbn [map]; rewrite IH; reflexivity.
+Qed.
+
+Lemma NoDup_map_filter : forall (f : rule -> Z) (p : rule -> bool) l, NoDup (map f l) -> NoDup (map f (filter p l)).
+Proof.
+  intros f p. induction l as [|a l IH]; cbn; intros H; [constructor|].
+  inversion H as [|x y Hn Hd]; subst. destruct (p a); cbn; [|apply IH; exact Hd].
+  constructor; [|apply IH; exact Hd]. intros Hin. apply Hn.
+  apply in_map_iff in Hin. destruct Hin as [b [Hb Hf]]. apply filter_In in Hf. apply in_map_iff. exists b. tauto.
+Qed.
+
+Lemma seq_lt : forall a n i, In i (seq a n) -> (a <= i < a + n)%nat.
+Proof. intros a n i H. apply in_seq in H. exact H. Qed.
+
+(* ---- keys *)
+Lemma list_eqb_Z : forall a b, list_eqb Z.eqb a b = true -> a = b.
+Proof.
+  induction a as [|x a IH]; destruct b as [|y b]; cbn; try discriminate; [reflexivity|].
+  intros H. apply Bool.andb_true_iff in H. destruct H as [H1 H2]. apply Z.eqb_eq in H1. subst. f_equal. apply IH. exact H2.
+Qed.
+
+Lemma ratio_eqb_eq : forall a b, ratio_eqb a b = true -> a = b.
+Proof.
+  intros [a1 a2] [b1 b2]. unfold ratio_eqb. cbn. intros H. apply Bool.andb_true_iff in H. destruct H as [H1 H2].
+  apply Z.eqb_eq in H1, H2. subst. reflexivity.
+Qed.
+
+Lemma key_eqb_eq : forall a b, key_eqb a b = true -> a = b.
+Proof.
+  intros [s n c [mc mn]] [s' n' c' [mc' mn']]. unfold key_eqb, mults_eqb. cbn.
+  intros H. apply Bool.andb_true_iff in H. destruct H as [H Hm]. apply Bool.andb_true_iff in H. destruct H as [H Hc].
+  apply Bool.andb_true_iff in H. destruct H as [Hs Hn]. apply Bool.andb_true_iff in Hm. destruct Hm as [Hm1 Hm2].
+  apply Z.eqb_eq in Hs. apply list_eqb_Z in Hn, Hc. apply ratio_eqb_eq in Hm1, Hm2. subst. reflexivity.
+Qed.
+
+Lemma cache_get_In : forall k c rs, cache_get k c = Some rs -> In (k, rs) c.
+Proof.
+  induction c as [|[k' v] c IH]; cbn; intros rs H; [discriminate|].
+  destruct (key_eqb k k') eqn:E.
+  - inversion H; subst. apply key_eqb_eq in E. subst. left. reflexivity.
+  - right. apply IH. exact H.
+Qed.
+
+(* ---- the invariant of the cache: every ruleset handed out so far holds, NOW, the selected rules
+   of the files with the distances as written times its own multipliers *)
+Definition exp_key (files : list (list rule)) (k : key) : list rule :=
+  map (scale_rule (k_mults k)) (select (k_names k) (k_cats k) (rule_files files (k_strict k))).
+
+Definition cache_inv (files : list (list rule)) (st : state) : Prop :=
+  forall k rs, In (k, rs) (st_cache st) ->
+    (forall i, In i (rs_rules rs) -> (i < h_next (st_heap st))%nat) /\
+    rs_mults rs = k_mults k /\
+    deref (st_heap st) (rs_rules rs) = exp_key files k.
+
+Definition files_ok (files : list (list rule)) : Prop := forall s, NoDup (map r_name (rule_files files s)).
+
+Lemma select_names_nodup : forall ns cs base, NoDup (map r_name base) -> NoDup (map r_name (select ns cs base)).
+Proof.
+  intros ns cs base H. unfold select.
+  assert (H1 : NoDup (map r_name (match ns with [] => base | _ => filter (fun r => mem (r_name r) ns) base end))).
+  { destruct ns; [exact H|]. apply NoDup_map_filter. exact H. }
+  destruct cs; [exact H1|]. apply NoDup_map_filter. exact H1.
+Qed.
+
+Lemma NoDup_filter_nat : forall (p : nat -> bool) l, NoDup l -> NoDup (filter p l).
+Proof.
+  intros p. induction l as [|a l IH]; cbn; intros H; [constructor|].
+  inversion H as [|x y Hn Hd]; subst. destruct (p a); [|apply IH; exact Hd].
+  constructor; [|apply IH; exact Hd]. intros Hin. apply filter_In in Hin. tauto.
+Qed.
+
+Lemma get_ruleset_step : forall files st q, files_ok files -> cache_inv files st ->
+  (mults_valid (effective q) = false /\ get_ruleset files st q = Err E_Value) \/
+  (exists st' rs, get_ruleset files st q = Ok (st', rs) /\ cache_inv files st' /\
+                  In (key_of q, rs) (st_cache st') /\
+                  (forall e, In e (st_cache st) -> In e (st_cache st'))).
+Proof.
+  intros files st q Hfiles Hinv. unfold get_ruleset.
+  destruct (mults_valid (effective q)) eqn:Ev; cbn [negb]; [right|left; split; reflexivity].
+  destruct (cache_get (key_of q) (st_cache st)) as [rs|] eqn:Ec.
+  { exists st, rs. split; [reflexivity|]. split; [exact Hinv|]. split; [apply cache_get_In; exact Ec|auto]. }
+  set (base := rule_files files (q_strict q)).
+  assert (Hb : NoDup (map r_name base)) by apply Hfiles.
+  set (h := st_heap st).
+  destruct (parse_rules_ok unit_mults base [] h Hb) as [h1 [Hp [Hn1 [Hfr1 Hd1]]]].
+  { intros x _ []. }
+  unfold from_files. rewrite Hp. unfold ruleset_init.
+  set (refs := seq (h_next h) (length base)) in *.
+  assert (Hndr : NoDup refs) by apply seq_NoDup.
+  rewrite map_scale_rule_unit in Hd1.
+  destruct (post_init_ok unit_mults refs h1 Hndr) as [h1' [Hpi [Hn1' [Hout1 Hd1']]]].
+  { rewrite Hd1. exact Hb. }
+  rewrite Hpi. cbn [rs_rules].
+  rewrite Hd1, map_scale_rule_unit in Hd1'.
+  (* the selection, on the objects and on the rules *)
+  set (by_name := match q_names q with [] => refs | _ => filter (fun i => mem (r_name (h_get h1' i)) (q_names q)) refs end).
+  set (by_cat := match q_cats q with [] => by_name | _ => filter (fun i => mem (r_cat (h_get h1' i)) (q_cats q)) by_name end).
+  assert (Hsel : deref h1' by_cat = select (q_names q) (q_cats q) base).
+  { unfold select, by_cat, by_name.
+    assert (H1 : deref h1' (match q_names q with [] => refs | _ => filter (fun i => mem (r_name (h_get h1' i)) (q_names q)) refs end)
+                 = match q_names q with [] => base | _ => filter (fun r => mem (r_name r) (q_names q)) base end).
+    { destruct (q_names q); [exact Hd1'|].
+      rewrite (deref_filter h1' (fun r => mem (r_name r) (z :: l))). rewrite Hd1'. reflexivity. }
+    destruct (q_cats q); [exact H1|].
+    rewrite (deref_filter h1' (fun r => mem (r_cat r) (z :: l))). rewrite H1. reflexivity. }
+  assert (Hsub : forall i, In i by_cat -> In i refs).
+  { intros i Hi. unfold by_cat, by_name in Hi.
+    destruct (q_cats q); destruct (q_names q); repeat (apply filter_In in Hi; destruct Hi as [Hi _]); exact Hi. }
+  assert (Hnd2 : NoDup by_cat).
+  { unfold by_cat, by_name. destruct (q_cats q); destruct (q_names q); repeat apply NoDup_filter_nat; exact Hndr. }
+  unfold copy_with_replacements, ruleset_init.
+  destruct (post_init_ok (effective q) by_cat h1' Hnd2) as [h2 [Hpi2 [Hn2 [Hout2 Hd2]]]].
+  { rewrite Hsel. apply select_names_nodup. exact Hb. }
+  rewrite Hpi2. eexists. eexists. split; [reflexivity|].
+  assert (Hold : forall j, (j < h_next h)%nat -> h_get h2 j = h_get h j).
+  { intros j Hj. rewrite Hout2.
+    - rewrite Hout1; [apply Hfr1; exact Hj|]. intros Hin. apply seq_lt in Hin. lia.
+    - intros Hin. apply Hsub in Hin. apply seq_lt in Hin. lia. }
+  split; [|split; [left; reflexivity|intros e He; right; exact He]].
+  intros k rs [He|Hin]; cbn [st_heap st_cache] in *.
+  - inversion He; subst k rs. cbn [rs_rules rs_mults]. split; [|split; [reflexivity|]].
+    + intros i Hi. apply Hsub in Hi. apply seq_lt in Hi. lia.
+    + rewrite Hd2, Hsel. reflexivity.
+  - destruct (Hinv k rs Hin) as [Hlt [Hm Hd]]. split; [|split; [exact Hm|]].
+    + intros i Hi. specialize (Hlt i Hi). fold h in Hlt. lia.
+    + rewrite <- Hd. apply deref_ext. intros i Hi. apply Hold. apply Hlt. exact Hi.
+Qed.
+
+Lemma cache_inv_init : forall files, cache_inv files init_state.
+Proof. intros files k rs []. Qed.
+
+Definition answer_ok (files : list (list rule)) (st : state) (q : request) (o : res ruleset) : Prop :=
+  match o with
+  | Ok rs => deref (st_heap st) (rs_rules rs) = expected_rules files q /\ rs_mults rs = effective q
+  | Err e => e = E_Value /\ mults_valid (effective q) = false
+  end.
+
+Lemma run_requests_inv : forall files qs st st2 outs, files_ok files -> cache_inv files st ->
+  run_requests files st qs = (st2, outs) ->
+  cache_inv files st2 /\ (forall e, In e (st_cache st) -> In e (st_cache st2)) /\
+  Forall2 (fun q o => match o with
+                      | Ok rs => In (key_of q, rs) (st_cache st2)
+                      | Err e => e = E_Value /\ mults_valid (effective q) = false end) qs outs.
+Proof.
+  intros files. induction qs as [|q rest IH]; intros st st2 outs Hf Hinv Hrun; cbn [run_requests] in Hrun.
+  - inversion Hrun; subst. split; [exact Hinv|]. split; [auto|constructor].
+  - destruct (get_ruleset_step files st q Hf Hinv) as [[Hv He]|[st' [rs [He [Hinv' [Hin Hmono]]]]]]; rewrite He in Hrun.
+    + destruct (run_requests files st rest) as [st3 out3] eqn:Er. inversion Hrun; subst.
+      destruct (IH st st2 out3 Hf Hinv Er) as [H1 [H2 H3]]. split; [exact H1|]. split; [exact H2|].
+      constructor; [split; [reflexivity|exact Hv]|exact H3].
+    + destruct (run_requests files st' rest) as [st3 out3] eqn:Er. inversion Hrun; subst.
+      destruct (IH st' st2 out3 Hf Hinv' Er) as [H1 [H2 H3]]. split; [exact H1|]. split; [auto|].
+      constructor; [apply H2; exact Hin|exact H3].
+Qed.
+
+Lemma Forall2_imp : forall {A B} (P Q : A -> B -> Prop) l l',
+  (forall a b, P a b -> Q a b) -> Forall2 P l l' -> Forall2 Q l l'.
+Proof. intros A B P Q l l' H F. induction F; constructor; auto. Qed.
+
+(* history independence: after ANY sequence of calls, every ruleset handed out by any of them
+   holds exactly the rules its own request selects, with distances = written distance * its own
+   multipliers - read in the FINAL store, so no later call has changed an earlier ruleset *)
+Lemma get_ruleset_history : forall files qs st outs, files_ok files ->
+  run_requests files init_state qs = (st, outs) -> Forall2 (answer_ok files st) qs outs.
+Proof.
+  intros files qs st outs Hf Hrun.
+  destruct (run_requests_inv files qs init_state st outs Hf (cache_inv_init files) Hrun) as [Hinv [_ Hall]].
+  eapply Forall2_imp; [|exact Hall]. intros q [rs|e] H; cbn in *; [|exact H].
+  destruct (Hinv _ _ H) as [_ [Hm Hd]]. split; [exact Hd|exact Hm].
+Qed.
+
+(* ================= selection commutes with detection and with the removal ================= *)
+
+Lemma filter_filter_comm {A} (f g : A -> bool) l : filter f (filter g l) = filter g (filter f l).
+Proof.
+  induction l as [|a l IH]; cbn; [reflexivity|].
+  destruct (g a) eqn:Eg; destruct (f a) eqn:Ef; cbn; rewrite ?Eg, ?Ef, IH; reflexivity.
+Qed.
+
+(* evaluating a sub-selection of the rules = evaluating all of them and keeping the selected ones *)
+Lemma eval_rules_filter {R I O : Type} (cutoff_of : R -> Z) (info : Z -> I) (detect : R -> I -> O) (p : R -> bool) rules :
+  combine (filter p rules) (eval_rules cutoff_of info detect [] (filter p rules))
+  = filter (fun x => p (fst x)) (combine rules (eval_rules cutoff_of info detect [] rules)).
+Proof.
+  rewrite !cache_transparent_nil. induction rules as [|r rest IH]; cbn [filter map combine]; [reflexivity|].
+  cbn [fst]. destruct (p r); cbn [map combine]; rewrite IH; reflexivity.
+Qed.
+
+Lemma select_filter ns cs base : select ns cs base = filter (selected ns cs) base.
+Proof.
+  unfold select, selected. destruct ns as [|n ns]; destruct cs as [|c cs].
+  - induction base as [|a l IH]; cbn; [reflexivity|]. f_equal. exact IH.
+  - apply filter_ext_in'. intros a _. reflexivity.
+  - apply filter_ext_in'. intros a _. rewrite andb_true_r. reflexivity.
+  - rewrite filter_filter_comm. induction base as [|a l IH]; cbn [filter]; [reflexivity|].
+    destruct (mem (r_name a) (n :: ns)) eqn:E1; cbn [andb filter].
+    + destruct (mem (r_cat a) (c :: cs)); cbn [filter]; rewrite ?E1, IH; reflexivity.
+    + destruct (mem (r_cat a) (c :: cs)); cbn [filter]; rewrite ?E1, IH; reflexivity.
+Qed.
+
+Lemma filter_map_scale m (p : rule -> bool) l : (forall r, p (scale_rule m r) = p r) ->
+  filter p (map (scale_rule m) l) = map (scale_rule m) (filter p l).
+Proof.
+  intros H. induction l as [|a l IH]; cbn [map filter]; [reflexivity|].
+  rewrite H. destruct (p a); cbn [map]; rewrite IH; reflexivity.
+Qed.
+
+Lemma expected_rules_filter files q :
+  expected_rules files q
+  = filter (selected (q_names q) (q_cats q)) (map (scale_rule (effective q)) (rule_files files (q_strict q))).
+Proof.
+  unfold expected_rules. rewrite select_filter. symmetry. apply filter_map_scale. intros r. reflexivity.
+Qed.
+
+Lemma selection_then_detection {I O : Type} (info : Z -> I) (detect : rule -> I -> O) files q :
+  let full := map (scale_rule (effective q)) (rule_files files (q_strict q)) in
+  combine (expected_rules files q) (eval_rules r_cutoff info detect [] (expected_rules files q))
+  = filter (fun x => selected (q_names q) (q_cats q) (fst x)) (combine full (eval_rules r_cutoff info detect [] full)).
+Proof. cbv zeta. rewrite expected_rules_filter. apply eval_rules_filter. Qed.
+
+(* the removal of covered clusters on a sub-selection that contains the superiors of its rules *)
+Lemma remove_redundant_subselection sup cs (p : Z -> bool) :
+  (forall c o, In c cs -> In o cs -> p (pc_rule c) = true ->
+               In (pc_rule o) (superiors_of sup (pc_rule c)) -> p (pc_rule o) = true) ->
+  remove_redundant sup (filter (fun c => p (pc_rule c)) cs) = filter (fun c => p (pc_rule c)) (remove_redundant sup cs).
+Proof.
+  intros Hclosed. unfold remove_redundant.
+  rewrite (filter_filter_comm (fun c => p (pc_rule c))
+             (fun c => negb (redundant_outer c (superiors_of sup (pc_rule c)) (clusters_by_rule cs))) cs).
+  apply filter_ext_in'.
+  intros c Hc. apply filter_In in Hc. destruct Hc as [Hc Hp].
+  apply (f_equal negb). apply eq_iff_eq_true. rewrite !redundant_iff. split.
+  - intros (o & Ho & Hs & Hcov). apply filter_In in Ho. exists o. tauto.
+  - intros (o & Ho & Hs & Hcov). exists o. split; [|tauto]. apply filter_In. split; [exact Ho|].
+    exact (Hclosed c o Hc Ho Hp Hs).
+Qed.
+
+(* without that condition a sub-selection can only keep more clusters of a selected rule, and what
+   it keeps in addition is covered by a cluster of a superior rule that was not selected *)
+Lemma remove_redundant_subselection_more sup cs (p : Z -> bool) c :
+  (In c (filter (fun c => p (pc_rule c)) (remove_redundant sup cs)) -> In c (remove_redundant sup (filter (fun c => p (pc_rule c)) cs))) /\
+  (In c (remove_redundant sup (filter (fun c => p (pc_rule c)) cs)) -> ~ In c (remove_redundant sup cs) ->
+   exists o, In o cs /\ p (pc_rule o) = false /\ In (pc_rule o) (superiors_of sup (pc_rule c)) /\ covers o c).
+Proof.
+  split.
+  - intros H. apply filter_In in H. destruct H as [H Hp]. apply remove_redundant_spec in H. destruct H as [Hin Hn].
+    apply remove_redundant_spec. split; [apply filter_In; tauto|].
+    intros (o & Ho & Hs & Hcov). apply Hn. exists o. apply filter_In in Ho. tauto.
+  - intros H Hnot. apply remove_redundant_spec in H. destruct H as [Hin Hn]. apply filter_In in Hin. destruct Hin as [Hin Hp].
+    destruct (redundant_outer c (superiors_of sup (pc_rule c)) (clusters_by_rule cs)) eqn:E.
+    + apply redundant_iff in E. destruct E as (o & Ho & Hs & Hcov). exists o. split; [exact Ho|]. split; [|tauto].
+      destruct (p (pc_rule o)) eqn:Epo; [|reflexivity]. exfalso. apply Hn. exists o. split; [apply filter_In; tauto|tauto].
+    + exfalso. apply Hnot. apply remove_redundant_spec. split; [exact Hin|]. intros Hr. apply redundant_iff in Hr. congruence.
+Qed.
+
+(* ---- what the invariant excludes: the same in-place scaling, reached through the public
+   constructors instead of get_ruleset (finding C07-K2, ruleset_copy_rescales_shared_rules) *)
+Lemma ruleset_copy_changes_source :
+  exists files q st rs h' rs',
+    get_ruleset files init_state q = Ok (st, rs) /\
+    copy_with_replacements rs (rs_rules rs) (rs_mults rs) (st_heap st) = Ok (h', rs') /\
+    deref (st_heap st) (rs_rules rs) = expected_rules files q /\
+    deref h' (rs_rules rs) <> expected_rules files q.
+Proof.
+  pose (files := [[mkRule 7 1 20000 10000]]). pose (q := mkReq 0 [] [] true (mkMults (1, 1) (3, 2))).
+  destruct (get_ruleset files init_state q) as [[st rs]|] eqn:E; [|vm_compute in E; discriminate].
+  destruct (copy_with_replacements rs (rs_rules rs) (rs_mults rs) (st_heap st)) as [[h' rs']|] eqn:E2.
+  - exists files, q, st, rs, h', rs'. split; [exact E|]. split; [exact E2|].
+    vm_compute in E. inversion E; subst st rs; clear E. vm_compute in E2. inversion E2; subst h' rs'; clear E2.
+    split; [vm_compute; reflexivity|]. vm_compute. discriminate.
+  - vm_compute in E. inversion E; subst st rs. vm_compute in E2. discriminate.
+Qed.
+
+Lemma from_files_scales_twice :
+  exists base m h rs,
+    NoDup (map r_name base) /\ mults_valid m = true /\
+    from_files base m (st_heap init_state) = Ok (h, rs) /\
+    deref h (rs_rules rs) <> map (scale_rule m) base /\
+    deref h (rs_rules rs) = map (scale_rule m) (map (scale_rule m) base).
+Proof.
+  pose (base := [mkRule 7 1 20000 10000]). pose (m := mkMults (1, 1) (3, 2)).
+  destruct (from_files base m (st_heap init_state)) as [[h rs]|] eqn:E; [|vm_compute in E; discriminate].
+  exists base, m, h, rs. split; [repeat constructor; intros []|]. split; [reflexivity|]. split; [exact E|].
+  vm_compute in E. inversion E; subst h rs; clear E. split; [vm_compute; discriminate|vm_compute; reflexivity].
+Qed.
+
+(* ---- the cache: a repeated request is answered with the same ruleset and changes nothing *)
+Lemma list_eqb_Z_refl : forall a, list_eqb Z.eqb a a = true.
+Proof. induction a as [|x a IH]; cbn; [reflexivity|]. rewrite Z.eqb_refl, IH. reflexivity. Qed.
+
+Lemma key_eqb_refl : forall k, key_eqb k k = true.
+Proof.
+  intros [s n c [[a b] [a' b']]]. unfold key_eqb, mults_eqb, ratio_eqb. cbn.
+  rewrite !Z.eqb_refl, !list_eqb_Z_refl. reflexivity.
+Qed.
+
+Lemma get_ruleset_repeat : forall files st q st' rs,
+  get_ruleset files st q = Ok (st', rs) -> get_ruleset files st' q = Ok (st', rs).
+Proof.
+  intros files st q st' rs H. unfold get_ruleset in *.
+  destruct (negb (mults_valid (effective q))); [discriminate|].
+  destruct (cache_get (key_of q) (st_cache st)) as [rs0|] eqn:Ec.
+  - inversion H; subst. rewrite Ec. reflexivity.
+  - destruct (from_files (rule_files files (q_strict q)) unit_mults (st_heap st)) as [[h1 rs0]|]; [|discriminate].
+    match type of H with match ?X with _ => _ end = _ => destruct X as [[h2 rs2]|]; [|discriminate] end.
+    inversion H; subst. cbn [st_cache cache_get]. rewrite key_eqb_refl. reflexivity.
+Qed.
+
+(* ---- the selection only depends on WHICH names and categories are asked for *)
+Lemma mem_perm : forall x l l', Permutation l l' -> mem x l = mem x l'.
+Proof.
+  intros x l l' Hp. apply eq_iff_eq_true. rewrite !mem_In. split; apply Permutation_in; [|apply Permutation_sym]; exact Hp.
+Qed.
+
+Lemma selected_perm : forall ns ns' cs cs' r, Permutation ns ns' -> Permutation cs cs' ->
+  selected ns cs r = selected ns' cs' r.
+Proof.
+  intros ns ns' cs cs' r Hn Hc. unfold selected. f_equal.
+  - destruct ns as [|a ns]; [apply Permutation_nil in Hn; subst; reflexivity|].
+    destruct ns' as [|a' ns']; [apply Permutation_sym in Hn; apply Permutation_nil in Hn; discriminate|].
+    apply mem_perm. exact Hn.
+  - destruct cs as [|a cs]; [apply Permutation_nil in Hc; subst; reflexivity|].
+    destruct cs' as [|a' cs']; [apply Permutation_sym in Hc; apply Permutation_nil in Hc; discriminate|].
+    apply mem_perm. exact Hc.
+Qed.
+
+Lemma expected_rules_perm : forall files s ns ns' cs cs' f m, Permutation ns ns' -> Permutation cs cs' ->
+  expected_rules files (mkReq s ns cs f m) = expected_rules files (mkReq s ns' cs' f m).
+Proof.
+  intros files s ns ns' cs cs' f m Hn Hc. rewrite !expected_rules_filter. cbn [q_names q_cats q_strict effective q_fungi q_mults].
+  apply filter_ext_in'. intros r _. apply selected_perm; assumption.
+Qed.
